@@ -299,6 +299,8 @@ func runC07(c *Ctx) {
 	// a refused history leaves no trace in the local clocks; every commit is visited (shared with C05)
 	checkWitnessAll(c, "R5.3")
 	checkBugValidateShape(c)
+	checkMergeResultEntityUse(c)
+	checkIdentityMergeComparesCommits(c)
 	roots := dataEntryPoints(w)
 	if len(roots) < 15 {
 		c.Violate("R7.1", "expected:entry-points", "module", fmt.Sprintf("only %d entry points resolved (reference ≥ 15)", len(roots)))
